@@ -79,6 +79,42 @@ pub enum Headline {
     Is(Acc),
 }
 
+/// An iterator that is not fused: it yields `v[..stop_at]`, then `None` once, and would yield the
+/// rest of `v` if polled again.  A `for` loop (and therefore the add loop that is the meaning of
+/// collect / extend) sees exactly `v[..stop_at]`.
+pub struct Resuming<'a, T> {
+    v: &'a [T],
+    pos: usize,
+    stop_at: usize,
+    stopped: bool,
+}
+
+impl<'a, T> Resuming<'a, T> {
+    pub fn new(v: &'a [T], stop_at: usize) -> Self {
+        Resuming { v, pos: 0, stop_at, stopped: false }
+    }
+}
+
+impl<'a, T> Iterator for Resuming<'a, T> {
+    type Item = &'a T;
+    fn next(&mut self) -> Option<&'a T> {
+        if self.pos == self.stop_at && !self.stopped {
+            self.stopped = true;
+            return None;
+        }
+        let x = self.v.get(self.pos)?;
+        self.pos += 1;
+        Some(x)
+    }
+}
+
+/// `v` followed by two values a conforming consumer never sees
+pub fn with_poison(v: &[f64]) -> Vec<f64> {
+    let mut w = v.to_vec();
+    w.extend([12345.0, -999.0]);
+    w
+}
+
 pub trait MomT: Clone + Send + Sync + 'static {
     const NAME: &'static str;
     /// highest central moment the type reports
@@ -95,6 +131,8 @@ pub trait MomT: Clone + Send + Sync + 'static {
     fn len_u64(&self) -> u64;
     fn to_json(&self) -> String;
     fn from_json(s: &str) -> Self;
+    /// round trip through the positional format (posfmt.rs)
+    fn roundtrip_pos(&self) -> Result<Self, String>;
     fn debug(&self) -> String;
     fn collect_val(v: &[f64]) -> Self;
     fn collect_ref(v: &[f64]) -> Self;
@@ -103,10 +141,17 @@ pub trait MomT: Clone + Send + Sync + 'static {
     /// the same through an iterator adaptor that does not know its length
     fn collect_val_lazy(v: &[f64]) -> Self;
     fn extend_val_lazy(&mut self, v: &[f64]);
+    /// the same through an iterator that is not fused (`Resuming`)
+    fn collect_resuming(v: &[f64], by_ref: bool) -> Self;
+    fn extend_resuming(&mut self, v: &[f64], by_ref: bool);
     fn par_collect_val(v: &[f64]) -> Self;
     fn par_collect_ref(v: &[f64]) -> Self;
     /// parallel collect with explicit splitting limits (forces many small leaves)
     fn par_collect_limits(v: &[f64], min_len: usize, max_len: usize, by_ref: bool) -> Self;
+    /// parallel collect through a length-changing adaptor: the input is padded with NaN markers
+    /// (layout 0: all on the right, 1: all on the left, 2: four after every item) which a `filter`
+    /// removes again, so whole leaves of the fold see no item at all; layout 3 chains an empty source
+    fn par_collect_adaptor(v: &[f64], layout: usize, max_len: usize, by_ref: bool) -> Self;
 }
 
 macro_rules! common_impl {
@@ -129,6 +174,9 @@ macro_rules! common_impl {
         fn from_json(s: &str) -> Self {
             serde_json::from_str(s).unwrap()
         }
+        fn roundtrip_pos(&self) -> Result<Self, String> {
+            crate::posfmt::roundtrip(self)
+        }
         fn debug(&self) -> String {
             format!("{:?}", self)
         }
@@ -150,6 +198,22 @@ macro_rules! common_impl {
         fn extend_val_lazy(&mut self, v: &[f64]) {
             Extend::extend(self, v.iter().copied().filter(|x| !x.is_nan() || x.is_nan()))
         }
+        fn collect_resuming(v: &[f64], by_ref: bool) -> Self {
+            let w = with_poison(v);
+            if by_ref {
+                Resuming::new(&w, v.len()).collect()
+            } else {
+                Resuming::new(&w, v.len()).copied().collect()
+            }
+        }
+        fn extend_resuming(&mut self, v: &[f64], by_ref: bool) {
+            let w = with_poison(v);
+            if by_ref {
+                Extend::extend(self, Resuming::new(&w, v.len()))
+            } else {
+                Extend::extend(self, Resuming::new(&w, v.len()).copied())
+            }
+        }
         fn par_collect_val(v: &[f64]) -> Self {
             use rayon::prelude::*;
             v.to_vec().into_par_iter().collect()
@@ -166,7 +230,27 @@ macro_rules! common_impl {
                 v.to_vec().into_par_iter().with_min_len(min_len).with_max_len(max_len).collect()
             }
         }
+        fn par_collect_adaptor(v: &[f64], layout: usize, max_len: usize, by_ref: bool) -> Self {
+            use rayon::prelude::*;
+            let padded = padded_input(v, layout);
+            let empty: Vec<f64> = Vec::new();
+            match (layout, by_ref) {
+                (3, true) => v.par_iter().with_max_len(max_len).chain(empty.par_iter()).collect(),
+                (3, false) => v.to_vec().into_par_iter().with_max_len(max_len).chain(empty.into_par_iter()).collect(),
+                (_, true) => padded.par_iter().with_max_len(max_len).filter(|x| !x.is_nan()).collect(),
+                (_, false) => padded.into_par_iter().with_max_len(max_len).filter(|x| !x.is_nan()).collect(),
+            }
+        }
     };
+}
+
+pub fn padded_input(v: &[f64], layout: usize) -> Vec<f64> {
+    let pad = v.len().max(4);
+    match layout {
+        0 => v.iter().copied().chain(std::iter::repeat(f64::NAN).take(pad)).collect(),
+        1 => std::iter::repeat(f64::NAN).take(pad).chain(v.iter().copied()).collect(),
+        _ => v.iter().flat_map(|&x| [x, f64::NAN, f64::NAN, f64::NAN, f64::NAN]).collect(),
+    }
 }
 
 impl MomT for average::Mean {
